@@ -371,6 +371,33 @@ def check(col, prog, tier, profile, fixture=None):
             v_rng.append(bool(rngok))
             v_shape.append(bool(shape_ok))
         rngok, shape_ok = bool(v_rng) and all(v_rng), bool(v_shape) and all(v_shape)
+        if not backs:
+            # internal iteration: `(1..v.len()).for_each(|i| v.swap(i, self.next(0..=i)))` - the range is the receiver,
+            # the closure body one round with its parameter as i; the closure may touch the slice only through swap
+            fes = [[e for e in st_.event_list() if e.kind == "call" and e.extra.get("name") == "for_each"] for st_ in I.final_states]
+            if fes and all(len(x) == 1 for x in fes):
+                v_rng, v_shape = [], []
+                for (fe,) in fes:
+                    rcv, clo = fe.args[0], fe.args[1] if len(fe.args) > 1 else None
+                    rng_ = _range_of_term(rcv)
+                    v_rng.append(rng_ is not None and rng_[0] == mk_int(1) and rng_[1] == ("len", ("load", ("m0",), vpl)))
+                    cb_ = crate.by_key.get(clo[1][1]) if clo is not None and clo[0] == "agg" and isinstance(clo[1], tuple) and clo[1][0] == "closure" else None
+                    caps = list(clo[2]) if cb_ is not None else []
+                    if cb_ is None or ("ref", vpl) not in caps:
+                        v_shape.append(False)
+                        continue
+                    uv = ("deref", ("upvar", caps.index(("ref", vpl))))
+                    Ic_ = util.analyse(cb_)
+                    i_ = ("param", 2, Ic_.names.get(2))
+                    good = bool(Ic_.final_states)
+                    for cst in Ic_.final_states:
+                        cev = cst.event_list()
+                        sw = [e for e in cev if e.kind == "call" and e.extra.get("name") == "swap"]
+                        nx = [e for e in cev if e.kind == "call" and e.extra.get("name") == "next" and (e.extra.get("trait") or "").endswith("Rand")]
+                        other = [e for e in cev if (e.kind == "store" and any(s_ == uv for s_ in [e.place] + list(subterms(e.place)))) or (e.kind == "call" and e.extra.get("name") != "swap" and any(a_ == ("ref", uv) and str((e.extra.get("argtys") or [""] * 9)[k_]).startswith("&mut") for k_, a_ in enumerate(e.args)))]
+                        good = good and len(sw) == 1 and len(nx) == 1 and not other and sw[0].args[0] == ("ref", uv) and sw[0].args[1] == i_ and sw[0].args[2] == nx[0].res and nx[0].args[1] == ("rangeincl", mk_int(0), i_)
+                    v_shape.append(good)
+                rngok, shape_ok = bool(v_rng) and all(v_rng), bool(v_shape) and all(v_shape)
         if rngok:
             col.ok("A2" + sfx, shuffle.loc(), "%s|loop-1..len" % fk(shuffle), "i ranges over 1..len")
         else:
@@ -445,6 +472,15 @@ def _potency(a, w):
     return -(-w // v) if v else 10 ** 9
 
 
+def _range_of_term(t):
+    """(start, end) of a `start..end` value: the Range aggregate or the interpreter's range iterator"""
+    if isinstance(t, tuple) and t and t[0] == "agg" and isinstance(t[1], tuple) and t[1][0] == "adt" and str(t[1][1]).endswith("ops::Range") and len(t[2]) == 2:
+        return t[2][0], t[2][1]
+    if isinstance(t, tuple) and t and t[0] == "rangeiter" and t[3] == "fwd":
+        return t[1], t[2]
+    return None
+
+
 def rule_lcg(col, rand_crate, rid, consts_from=None, low_bits=()):
     """the state transition of the linear congruential generator is the full-period affine map on all 64 bits:
     next_raw stores state' = state * A + C (wrapping, nothing masked or shifted away) and returns that state; the
@@ -463,6 +499,10 @@ def rule_lcg(col, rand_crate, rid, consts_from=None, low_bits=()):
     selfp = ("deref", ("param", 1, I.names.get(1)))
     ok = bool(I.final_states) and len(sf) == 1
     why = "the generator state is not a single u64 field" if len(sf) != 1 else ""
+    # the two const parameters by POSITION (multiplier first, increment second: that is how the instantiations below
+    # are read), whatever they are called
+    m_g = re.search(r"LinearCongruentialGenerator64<\s*(\w+)\s*,\s*(\w+)\s*>", str((rand_crate.impl_of(b) or {}).get("self_ty")))
+    GA, GC = (m_g.group(1), m_g.group(2)) if m_g else ("A", "C")
     for st in I.final_states:
         if not ok:
             break
@@ -481,7 +521,7 @@ def rule_lcg(col, rand_crate, rid, consts_from=None, low_bits=()):
         if v[0] == "call" and str(v[1]).endswith("::wrapping_add"):
             x, y = args(v)
             for m_, c_ in ((x, y), (y, x)):
-                if c_ == ("gparam", "C") and m_[0] == "call" and str(m_[1]).endswith("::wrapping_mul") and set(map(repr, args(m_))) == {repr(old), repr(("gparam", "A"))}:
+                if c_ == ("gparam", GC) and m_[0] == "call" and str(m_[1]).endswith("::wrapping_mul") and set(map(repr, args(m_))) == {repr(old), repr(("gparam", GA))}:
                     good = True
         if not good:
             ok, why = False, "the new state is %s, not state.wrapping_mul(A).wrapping_add(C)" % tstr(v)[:100]
@@ -501,9 +541,18 @@ def rule_lcg(col, rand_crate, rid, consts_from=None, low_bits=()):
     insts = set()
     for cr in ([rand_crate] + list(consts_from or [])):
         for al in getattr(cr, "aliases", []):
-            m_ = re.search(r"LinearCongruentialGenerator64<(\d+)(?:_?u64)?, (\d+)(?:_?u64)?>", str(al.get("ty")))
+            m_ = re.search(r"LinearCongruentialGenerator64<(\w+?)(?:_?u64)?, (\w+?)(?:_?u64)?>", str(al.get("ty")))
             if m_:
-                insts.add((int(m_.group(1)), int(m_.group(2)), "type %s" % al["name"]))
+                # literals, or named constants of the crate (`Gen<LCG_MULTIPLIER, LCG_INCREMENT>`) by their evaluated value
+                vals = []
+                for g_ in (m_.group(1), m_.group(2)):
+                    if g_.isdigit():
+                        vals.append(int(g_))
+                    else:
+                        cv = [k_.get("val") for k_ in getattr(cr, "consts", []) if k_.get("name") == g_ and isinstance(k_.get("val"), int)]
+                        vals.append(cv[0] if len(cv) == 1 else None)
+                if None not in vals:
+                    insts.add((vals[0], vals[1], "type %s" % al["name"]))
         for bd in cr.bodies:
             for _bb, t in bd.calls():
                 if "LinearCongruentialGenerator64" in str(t["fn"].get("path")):
